@@ -59,6 +59,25 @@ func keySchedule(r *rig.Rng, cycles int) map[int]keyEv {
 	return m
 }
 
+// logoPath returns (and creates once per process) a 1 MiB MBC1 image with the boot logo and a
+// header at the start of every 256 KiB block.
+var logoFile string
+
+func logoPath() string {
+	if logoFile == "" {
+		img := rig.BlankROM(0x01, 5, 0)
+		logo := []byte{0xce, 0xed, 0x66, 0x66, 0xcc, 0x0d, 0x00, 0x0b, 0x03, 0x73, 0x00, 0x83, 0x00, 0x0c, 0x00, 0x0d, 0x00, 0x08, 0x11, 0x1f, 0x88, 0x89, 0x00, 0x0e,
+			0xdc, 0xcc, 0x6e, 0xe6, 0xdd, 0xdd, 0xd9, 0x99, 0xbb, 0xbb, 0x67, 0x63, 0x6e, 0x0e, 0xec, 0xcc, 0xdd, 0xdc, 0x99, 0x9f, 0xbb, 0xb9, 0x33, 0x3e}
+		for base := 0; base < len(img); base += 0x40000 {
+			copy(img[base+0x104:], logo)
+			img[base+0x147], img[base+0x148] = 0x01, 5
+			rig.Put(img, base+0x100, 0x00, 0x18, 0xfe)
+		}
+		logoFile = emu.TempROM(img, "c25logo")
+	}
+	return logoFile
+}
+
 func newInst(path string) *inst {
 	optMu.Lock()
 	o := optFor[path]
@@ -131,7 +150,9 @@ func equal(a, b []uint64) (bool, int) {
 func run(c *rig.Ctx) {
 	c.Require("interleaved_cases", "concurrent_cases", "instances_compared", "orders_tried", "instances_with_key_events", "instances_using_stop", "instances_with_debug_lcd")
 	gen := func(r *rig.Rng, k int64) *prog.Program {
-		switch k % 6 {
+		switch k % 7 {
+		case 6:
+			return prog.LowAreaRemap(r) // 1 MiB MBC1 remapping its low area
 		case 5:
 			return prog.Sprites(r) // objects and window on screen
 		case 4:
@@ -238,6 +259,9 @@ func run(c *rig.Ctx) {
 						if mode == 4 && r.Chance(1, 200) {
 							// create and discard an unrelated instance in the middle
 							tmp := newInst(paths[r.Intn(n)])
+							if r.Bool() {
+								tmp = newInst(logoPath()) // a multi-game style cartridge comes and goes
+							}
 							for b := 0; b < 50; b++ {
 								tmp.step()
 							}
@@ -323,6 +347,7 @@ func run(c *rig.Ctx) {
 
 	failingNeighbour(c)
 	afterShutdown(c)
+	audioPair(c)
 }
 
 func main() {
